@@ -1,0 +1,20 @@
+//go:build verif
+
+package shield
+
+import "github.com/simimpact/srsim/pkg/key"
+
+// VerifShield is one active shield as seen by the verification harness.
+type VerifShield struct {
+	Name key.Shield
+	HP   float64
+}
+
+// VerifShields returns the active shields of target in attachment order (verification only).
+func (mgr *Manager) VerifShields(target key.TargetID) []VerifShield {
+	out := make([]VerifShield, 0, len(mgr.targets[target]))
+	for _, s := range mgr.targets[target] {
+		out = append(out, VerifShield{Name: s.name, HP: s.hp})
+	}
+	return out
+}
